@@ -69,6 +69,7 @@ def main(prop, tier="quick", seed=0, replay=None, only=None, jobs=None):
             return 1
         return 0
     t0 = time.time()
+    os.environ["VERIF_TIER_EFFECTIVE"] = tier
     cfgs = mod.configs(tier)
     if only:
         cfgs = [c for c in cfgs if re.search(only, str(c[0]))]
